@@ -1,7 +1,9 @@
 /-
   MongoModel.Update — what `Collection._apply_update` does to ONE document
-  (mongomock/collection.py: the operator loop 700-930, `_update_document_single_field`,
-  `_get_subdocument`, `_expand_dots`, `_discard_operators`, the `_updaters`), followed line by
+  (mongomock/collection.py: the operator loop, `_update_document_single_field`,
+  `_get_subdocument`, `_each_of_add_to_set`, `_validate_update_operators` (`validateOps`: the
+  operator names, checked by the callers in Store / FindModify before any document is looked
+  for), `_discard_operators` then `_expand_dots` (`upsertSeed`), the `_updaters`), followed line by
   line, quirks included.  Python mutates the stored document in place; the model is functional
   (every function returns the new container).  Since the `fix:` commit "a failed single-document
   update restores the document" an exception leaves no partial state, so an error simply aborts.
@@ -332,6 +334,14 @@ def addToSetField (spec : Val) (d : Val) (field : String) (value : Val) : R Val 
           let r ← addToSetValue cur value
           pure (.doc (dset last r ps))
         | .arr _ => unmodelled
+        | .str p =>
+          -- `last in subdocument` is a substring test: when it fails the value to add is computed
+          -- from an empty list (the clause next to `$each` is refused here) before the assignment
+          -- `subdocument[last] = …` raises TypeError; when it holds, `subdocument[last]` raises
+          if isInfixChars last.toList p.toList then .error .typeErr
+          else do
+            let _ ← addToSetValue (.arr []) value
+            .error .typeErr
         | _ => .error .typeErr) true parts true spec d
 
 /-- remove the first element `==` to `o` (`list.remove`) -/
